@@ -29,3 +29,36 @@ Section JarSession.
                 end
     end.
 End JarSession.
+
+(* The same browser against the server-side store (pkg/sessions/persistence Manager over a key-value
+   store): the jar carries the signed ticket cookie, the store the sealed session under the ticket's id.
+   `seal` / `unseal` stand for AES-GCM with the per-ticket secret and the session codec. *)
+From V.Model Require Import Ticket.
+
+Inductive top := TSave (v : str) (created_s : Z) (fresh : str * str) | TClear.
+
+Section TicketSession.
+  Variable mac : str -> str.
+  Variable seal : str -> str -> str.                  (* secret -> session -> stored bytes *)
+  Variable unseal : str -> str -> option str.
+
+  Definition kv := str -> option str.
+  Definition kv_set (m : kv) (k v : str) : kv := fun x => if str_eqb x k then Some v else m x.
+  Definition kv_del (m : kv) (k : str) : kv := fun x => if str_eqb x k then None else m x.
+
+  (* one operation at time now_ns on a healthy store *)
+  Definition ticket_step (cfg : ccfg) (host : str) (now_ns : Z) (st : jar * kv) (o : top) : jar * kv :=
+    let '(j, m) := st in
+    let cs := jar_cookies j in
+    match o with
+    | TSave v created fresh =>
+      let '(id, sec) := match ticket_from_request mac cfg cs now_ns with Some t => t | None => fresh end in
+      match snd (manager_save mac cfg host cs now_ns fresh created true) with
+      | Some hdrs => (jar_apply j hdrs, kv_set m id (seal sec v))
+      | None => (j, m)
+      end
+    | TClear =>
+      let '(hdrs, key, _) := manager_clear mac cfg host cs now_ns true in
+      (jar_apply j hdrs, match key with Some k => kv_del m k | None => m end)
+    end.
+End TicketSession.
